@@ -25,8 +25,11 @@ Theorem C15_der_encode_injective : forall v1 v2,
 Proof. exact der_encode_injective. Qed.
 Print Assumptions C15_der_encode_injective.
 
-(* the model decoder terminates with a value or an error on every byte string (nesting depth is
-   bounded by the input length; the real decoder instead hits Python's recursion limit) *)
+(* the model decoder terminates with a value or an error on every byte string: nesting depth is
+   bounded by the input length, so no depth is "too deep" for the model.  The real decoder (after
+   364f43a) reports nesting beyond Python's recursion limit as ASN1DecodeError; that stack-dependent
+   limit is not modelled - the harness accepts exactly {model result, ASN1DecodeError} for deep input
+   and nothing else (in particular no RecursionError). *)
 Theorem C15_der_decode_total : forall data, der_decode data <> Err OutOfFuel.
 Proof. exact der_decode_total. Qed.
 Print Assumptions C15_der_decode_total.
@@ -83,31 +86,51 @@ Theorem C15_pem_armour_roundtrip : forall known name keytype data wrap public,
 Proof. exact pem_roundtrip. Qed.
 Print Assumptions C15_pem_armour_roundtrip.
 
-(* The one-line OpenSSH public format: algorithm, blob and comment are read back, for every comment
-   that contains no newline and neither starts nor ends with a blank. *)
+(* The one-line OpenSSH public format (code of record, after fdd47d0): for every comment without LF/CR
+   that neither starts nor ends with a blank the export succeeds and algorithm, blob and comment are
+   read back. *)
 Theorem C15_openssh_public_line_roundtrip : forall known alg a0 alg' blob comment,
   alg = a0 :: alg' -> a0 <> 45 -> a0 <> 48 -> no_ws alg = true -> known alg = true ->
   Forall is_byte blob -> blob <> [] ->
-  match comment with Some c => comment_survives_line c | None => True end ->
-  match_next known (export_openssh_public alg blob comment) PUBLIC_KEY true = FOpenSSH alg comment blob [].
-Proof. exact openssh_public_line_roundtrip. Qed.
+  match comment with Some c => comment_survives_line c /\ ~ In 13 c | None => True end ->
+  exists text, export_openssh_public alg blob comment = Some text /\
+               match_next known text PUBLIC_KEY true = FOpenSSH alg comment blob [].
+Proof. exact openssh_public_export_import. Qed.
 Print Assumptions C15_openssh_public_line_roundtrip.
 
-(* "comments of any bytes" does not hold for the text formats: a newline truncates the comment (the
-   rest becomes another line of the file), a leading blank is dropped, and an RFC 4716 block with a
-   newline in its comment is not importable at all. *)
-Theorem C15_public_comment_any_bytes_refuted :
+(* a comment containing LF or CR is refused by both text exports (KeyExportError), for every key *)
+Theorem C15_public_comment_newline_export_refused : forall alg blob c,
+  In 10 c \/ In 13 c ->
+  export_openssh_public alg blob (Some c) = None /\ export_rfc4716 blob (Some c) = None.
+Proof. exact newline_comment_export_refused. Qed.
+Print Assumptions C15_public_comment_newline_export_refused.
+
+(* the unrepaired export (no check): a newline truncated the comment and turned its rest into another
+   line of the file, and an RFC 4716 block with a newline comment was not importable (findings fixed
+   by fdd47d0) *)
+Theorem C15_public_comment_any_bytes_old_refuted :
   (exists alg blob c c' rest, c <> c' /\
-     match_next (fun _ => true) (export_openssh_public alg blob (Some c)) PUBLIC_KEY true =
+     match_next (fun _ => true) (export_openssh_public_old alg blob (Some c)) PUBLIC_KEY true =
      FOpenSSH alg (Some c') blob rest) /\
-  (exists blob c, match_next (fun _ => true) (export_rfc4716 blob (Some c)) PUBLIC_KEY true = FErr ImportErr).
+  (exists blob c, match_next (fun _ => true) (export_rfc4716_old blob (Some c)) PUBLIC_KEY true = FErr ImportErr).
 Proof.
   split.
   - exists [115; 115; 104], [1; 2; 3], [97; 10; 98], [97], [98; 10]. split; [discriminate|].
     exact openssh_public_comment_newline_not_preserved.
   - exists [1; 2; 3], [97; 10; 98]. exact rfc4716_comment_newline_not_importable.
 Qed.
-Print Assumptions C15_public_comment_any_bytes_refuted.
+Print Assumptions C15_public_comment_any_bytes_old_refuted.
+
+(* still true of the code of record (known finding C15-4): the one-line format drops blanks at the
+   edges of a comment - the export succeeds and a different comment is read back *)
+Theorem C15_public_comment_edge_blank_refuted :
+  exists alg blob c c' text, c <> c' /\ export_openssh_public alg blob (Some c) = Some text /\
+    match_next (fun _ => true) text PUBLIC_KEY true = FOpenSSH alg (Some c') blob [].
+Proof.
+  exists [115; 115; 104], [1; 2; 3], [32; 97], [97], (export_openssh_public_old [115; 115; 104] [1; 2; 3] (Some [32; 97])).
+  split; [discriminate|]. exact openssh_public_comment_blank_not_preserved.
+Qed.
+Print Assumptions C15_public_comment_edge_blank_refuted.
 
 (* ---- openssh-key-v1 container ---- *)
 
